@@ -1,15 +1,17 @@
 """C18 — codes are prefix-free, Hu-Tucker keeps order, table decoding inverts encoding."""
-from props import compcheck, gen_codes
+from props import compcheck, gen_codes, gen_dtdict
 
 
 def check(run, tier, seed, replay):
-    compcheck.run(run, "C18", [gen_codes], tier, seed, replay,
+    compcheck.run(run, "C18", [gen_codes, gen_dtdict], tier, seed, replay, timeout_case=300,
                   rule="frequency vectors over 256 symbols: all ones, uniform, geometric both ways, one dominant symbol, dominant NUL, "
                        "Fibonacci-like prefixes/suffixes reaching exactly 32-bit codewords, text counts with zeros replaced by ones, random, "
                        "ramps; the REAL HuTucker / Huffman tables are checked by the extracted verified checkers (prefix-free, complete, "
                        "lengths, alphabetic), the REAL recombination phase is compared with the model on the real level vector, the REAL "
                        "StatCoder packing with the model for multi-string streams starting mid-byte, and the REAL chunked decoding table "
-                       "round-trips strings incl. codewords longer than 16 bits. Non-trivial = a command on a real table; distinct by command list.",
+                       "round-trips strings incl. codewords longer than 16 bits; dictionary level: HTFC/HHTFC/HASHHF/HASHUFFDAC over numerals 0..999 and "
+                       "0..9999, syllable vocabularies and random skewed dictionaries of 50..600 strings x bucket sizes 2..32, every member "
+                       "located and extracted back through the loaded decoding table (bulk command locall). Non-trivial = a command on a real table; distinct by command list.",
                   assumptions=["the Hu-Tucker combination / level-assignment phases, createHuff and the decoding-table builder are validated per "
                                "instance by verified checkers, not verified for all inputs", "coverage of the data-dependent chunk table is not modelled "
                                "(known finding: unpopulated entries are consulted by the HT-family dictionaries)"])
